@@ -245,7 +245,7 @@ def make_judges(ctx):
 
 
 def floors(tier):
-    return [('route', r) for r in ('resize', 'resize_dtype', 'ctor_like', 'ctor_sizes', 'like', 'call', 'set_val', 'equal', 'setitem', 'equal_index')]
+    return [('route', r) for r in ('resize', 'resize_dtype', 'ctor_like', 'ctor_sizes', 'like', 'call', 'set_val', 'equal', 'setitem', 'equal_index')] + [('noncontiguous_source',)]
 
 
 # ------------------------------------------------------------------------------------------ workload
@@ -427,6 +427,24 @@ def run_case(case, ctx):
                 all_routes(Fxp, mk_lop, fd2, r, o, routes=('resize', 'ctor_sizes', 'like', 'equal', 'set_val', 'setitem'))
                 lop2 = [hi, -1, 0, -rng.randint(1, 7)]
                 all_routes(Fxp, lambda: Fxp(np.array(lop2), fs[0], fs[1], fs[2], raw=True), fd2, r, o, routes=('resize', 'like', 'equal'))
+        if (i // 10) % 4 == 2 and fs[1] >= 3:
+            # sources whose value buffer is not C-contiguous (a transpose, a reversed view, a column, a Fortran-ordered input): conversion must follow the
+            # logical order of the elements; also with an up-shift that reaches 63 bits (the route through Python integers)
+            dc = [lo, hi, rng.randint(lo, hi), rng.randint(lo, hi), (lo + hi) // 2, lo + 1]
+            a2 = np.array(dc).reshape(2, 3)
+            srcs = [lambda: Fxp(a2, fs[0], fs[1], fs[2], raw=True).T, lambda: Fxp(a2, fs[0], fs[1], fs[2], raw=True)[::-1],
+                    lambda: Fxp(a2, fs[0], fs[1], fs[2], raw=True)[:, 1], lambda: Fxp(np.asfortranarray(a2), fs[0], fs[1], fs[2], raw=True),
+                    lambda: Fxp(np.array(dc), fs[0], fs[1], fs[2], raw=True)[::-2]]
+            fds = [fd]
+            up = 64 - fs[1] + rng.randint(-1, 3)
+            nf2 = fs[2] + up
+            if -8 <= nf2 <= 60:
+                fds.append((fs[0], rng.randint(max(8, min(52, nf2 - 8)), 52), nf2))
+            for mk_nc in srcs:
+                for fdx in fds:
+                    if -8 <= fdx[2] <= fdx[1] + 8:
+                        all_routes(Fxp, mk_nc, fdx, r, o, routes=('resize', 'ctor_sizes', 'ctor_like', 'like', 'equal', 'set_val', 'call', 'setitem'))
+            ctx.floor_hit(('noncontiguous_source',))
         if (i // 10) % 4 == 1 and fs[1] <= 40:      # (independent of the mode digit i % 10)
             # a source filled from a list of (unsigned) NumPy scalars under wrap: its codes can be negative, its value dtype unsigned
             m = 1 << fs[1]
